@@ -474,4 +474,22 @@ def polyglots():
     for n in ('vdi', 'gpt', 'iso', 'vhd'):
         put(img, *sigs[n])
     out.append(('signatures vhd+vdi+gpt+iso', bytes(img)))
+    # every signature (the sparse-VMDK magic included) on text and on a
+    # byte-pattern background
+    sigs['vmdk'] = (0, b'KDMV')
+    backgrounds = (('text', (b'some printable text line\n' * 1700)[:40 * KiB]),
+                   ('pattern', (bytes(range(256)) * 160)[:40 * KiB]))
+    for bname, bg in backgrounds:
+        for a in sorted(sigs):
+            img = bytearray(bg)
+            put(img, *sigs[a])
+            out.append(('signature %s on %s' % (a, bname), bytes(img)))
+    img = bytearray(base)
+    put(img, *sigs['vmdk'])
+    out.append(('signature vmdk on zeros', bytes(img)))
+    for bname, bg in backgrounds[:1]:
+        img = bytearray(bg)
+        put(img, *sigs['vmdk'])
+        put(img, *sigs['iso'])
+        out.append(('signatures vmdk+iso on %s' % bname, bytes(img)))
     return out
